@@ -4,7 +4,7 @@ Real text: circuit/src/ops/poseidon_perm/executor.rs  PoseidonPermExecutor::{res
 import re
 
 from vf.extract import ExtractError
-from vf.unit import Unit, unref_patterns_in_arms
+from vf.unit import Unit, unref_patterns_in_arms, unok_or_else_q
 
 PRELUDE = r'''
 #![allow(unused_imports, unused_variables, dead_code, unused_mut, unused_parens)]
@@ -38,7 +38,13 @@ impl PermCfg {
     pub fn width_ext(&self) -> (r: usize) ensures r == self.wext { self.wext }
     pub fn is_arity4_shape(&self) -> (r: bool) ensures r == self.a4 { self.a4 }
 }
-pub struct PoseidonPermExecutor { pub op_type: NpoTypeId, pub merkle_path: bool, pub config: PermCfg }
+pub struct PoseidonPermExecutor { pub op_type: NpoTypeId, pub merkle_path: bool, pub new_start: bool, pub config: PermCfg }
+impl PermCfg { #[verifier::external_body] pub fn rate_ext(&self) -> (r: usize) ensures r <= self.wext { unimplemented!() } }
+#[verifier::external_body] pub fn zero_vec_<F: Field>(n: usize) -> (r: Vec<F>) ensures r@.len() == n { unimplemented!() }
+#[verifier::external_body] pub fn chain_missing_error_(id: NonPrimitiveOpId) -> CircuitError { unimplemented!() }
+#[verifier::external_body] pub fn copy_prefix_<F: Field>(dst: &mut Vec<F>, src: &[F], n: usize) requires n <= old(dst)@.len(), n <= src@.len() ensures final(dst)@.len() == old(dst)@.len() { unimplemented!() }
+pub fn min_(a: usize, b: usize) -> (r: usize) ensures r == (if a < b { a } else { b }) { if a < b { a } else { b } }
+
 /// `inputs.get(slot).and_then(|v| v.first())`: the witness that feeds input slot `slot`, if the slot exists and is not empty
 pub open spec fn slot_wid(inputs: Seq<Vec<WitnessId>>, slot: int) -> Option<WitnessId> { if 0 <= slot < inputs.len() && inputs[slot]@.len() > 0 { Some(inputs[slot]@[0]) } else { None } }
 #[verifier::external_body]
@@ -105,8 +111,17 @@ def build():
     # C19 (open finding): the witness value is copied into the row; nothing compares it with the accumulator the chain's direction bits give (the trace generator recomputes the column, the
     # witness bus then carries a value the table does not send: run() reports success from conflicting inputs)
     bt.ensures('H_an_attached_index_accumulator_agrees_with_the_direction_bits_of_its_chain', 'ret matches Ok(v) ==> (inputs@[width_ext as int]@.len() == 1 ==> index_sum_agrees_with_the_chain(self, v))')
+    # ---------------------------------------------------------------- init_chain_state: a chained row needs the previous output of its chain (C19: never run from an unset state)
+    ic = norm(u.extract(E, IMPL, 'init_chain_state', 'PoseidonPermExecutor::init_chain_state'))
+    ic.rewrite_re('R11', r'\bF::zero_vec\(', 'zero_vec_(', min_count=0)
+    ic.rewrite_re('R11', r'\bV::chain_missing_error\(', 'chain_missing_error_(', min_count=0)
+    ic.rewrite_re('R6', r'(\w+)\[\.\.(\w+)\]\.copy_from_slice\(&(\w+)\[\.\.\2\]\);', r'copy_prefix_(&mut \1, \3, \2);', min_count=0)
+    ic.rewrite_re('R11', r'(self\.config\.rate_ext\(\)|\bwidth_ext|\bcarried)\.min\((\w+)\.len\(\)\)', r'min_(\1, \2.len())', min_count=0)
+    unok_or_else_q(ic)
+    ic.ensures('a_chained_row_without_a_previous_state_of_its_chain_is_an_error', '!self.new_start && last_output is None ==> ret is Err')
+    ic.ensures('a_chain_start_begins_from_the_zero_state', 'self.new_start ==> (ret matches Ok(v) && v@.len() == self.config.wext)')
     u.text('verus! {\nimpl PoseidonPermExecutor {')
-    for f in (ia, rb, r1, r2, bt):
+    for f in (ia, rb, r1, r2, bt, ic):
         u.emit(f)
     u.text('}\n}')
     return u
